@@ -5,3 +5,4 @@ pub mod files;
 pub mod poller;
 pub mod process;
 pub mod shm;
+pub mod wholeproc;
